@@ -114,6 +114,7 @@ type Interp struct {
 	MapOrderPolicies int
 	orderPolicy      int
 	orderBaseline    bool
+	fnIDs            map[*ssa.Function]uint64
 	deviated         bool
 
 	// statistics
